@@ -47,6 +47,12 @@ let net_step cs os =
     let is_client = (target = "client" || target = "aclient" || target = "wsclient") in
     let bad = ref [] in
     if alive <> "1" then bad := "BAD\tside=impl\tclause=endpoint no longer serves after hostile bytes" :: !bad;
+    (* trail=1: a well-formed frame followed by surplus bytes in one WebSocket message; the server's
+       exact-length parse must refuse it: a reply with error code 0 means it was dispatched *)
+    (if get_opt f "trail" = Some "1" && target = "ws" then
+       match split_on ':' net with
+       | ["reply"; _; "0"] -> bad := "BAD\tside=impl\tclause=a frame with trailing bytes was dispatched and answered (exact-length parse accepted surplus bytes)" :: !bad
+       | _ -> ());
     if is_client then begin
       if net = "ok" then bad := "BAD\tside=impl\tclause=client returned a value for a hostile reply" :: !bad
       else if net = "err:1" then
